@@ -70,6 +70,8 @@ fn viol(rep: &mut Report, case: &Case, cell: &str, oracle: &str, detail: String)
 }
 
 struct CondOuter {
+    /// the condition is a build-time constant (not assigned through the witness)
+    const_cond: bool,
     data: CircuitData<F, C, D>,
     cond: BoolTarget,
     pts: Vec<ProofWithPublicInputsTarget<D>>,
@@ -80,7 +82,9 @@ struct CondOuter {
 fn accepts(o: &CondOuter, cond: bool, ps: &[&ProofWithPublicInputs<F, C, D>], vs: &[&VerifierOnlyCircuitData<C, D>], entropy: &Entropy) -> (bool, String) {
     let r = guarded(|| {
         let mut pw = PartialWitness::new();
-        pw.set_bool_target(o.cond, cond).map_err(|e| e.to_string())?;
+        if !o.const_cond {
+            pw.set_bool_target(o.cond, cond).map_err(|e| e.to_string())?;
+        }
         for (pt, p) in o.pts.iter().zip(ps) {
             pw.set_proof_with_pis_target(pt, *p).map_err(|e| format!("assignment: {e}"))?;
         }
@@ -181,7 +185,7 @@ fn exec_conditional(case: &Case, rep: &mut Report) {
         b.conditionally_verify_proof::<C>(cond, &pt0, &vt0, &pt1, &vt1, common);
         let data = b.build::<C>();
         let ctx = SatCtx::new(&data);
-        CondOuter { data, cond, pts: vec![pt0, pt1], vts: vec![vt0, vt1], ctx }
+        CondOuter { const_cond: false, data, cond, pts: vec![pt0, pt1], vts: vec![vt0, vt1], ctx }
     });
     match outer {
         Err(e) => viol(rep, case, "two_proofs", "conditional_outer_build_panicked", e),
@@ -211,6 +215,51 @@ fn exec_conditional(case: &Case, rep: &mut Report) {
         }
     }
 
+    // ---- the same with a condition that is a circuit constant (`_true()` / `_false()`): cells where the branches differ in validity
+    if case.only.as_ref().map_or(true, |o| o.starts_with("const_cond")) {
+        for cond in [true, false] {
+            let outer = guarded(|| {
+                let mut b = CircuitBuilder::<F, D>::new(CircuitConfig::standard_recursion_config());
+                let c = if cond { b._true() } else { b._false() };
+                let pt0 = b.add_virtual_proof_with_pis(common);
+                let pt1 = b.add_virtual_proof_with_pis(common);
+                let vt0 = b.add_virtual_verifier_data(common.config.fri_config.cap_height);
+                let vt1 = b.add_virtual_verifier_data(common.config.fri_config.cap_height);
+                b.conditionally_verify_proof::<C>(c, &pt0, &vt0, &pt1, &vt1, common);
+                let data = b.build::<C>();
+                let ctx = SatCtx::new(&data);
+                CondOuter { const_cond: true, data, cond: c, pts: vec![pt0, pt1], vts: vec![vt0, vt1], ctx }
+            });
+            let o = match outer {
+                Ok(o) => o,
+                Err(e) => {
+                    viol(rep, case, "const_cond", "conditional_outer_build_panicked", e);
+                    continue;
+                }
+            };
+            let mut done = 0;
+            for i0 in 0..variants.len() {
+                for i1 in 0..variants.len() {
+                    if !want("const_cond", cond, i0, i1) {
+                        continue;
+                    }
+                    if case.only.is_none() && (nat[i0] == nat[i1] || done >= 4) {
+                        continue;
+                    }
+                    done += 1;
+                    let expected = if cond { nat[i0] } else { nat[i1] };
+                    let (got, why) = accepts(&o, cond, &[&variants[i0].1, &variants[i1].1], &[&variants[i0].2, &variants[i1].2], &case.entropy);
+                    rep.fault(&format!("const_cond.{}|{}", variants[i0].0, variants[i1].0));
+                    rep.case(base_sig ^ hash_value(&json!(["const", cond, i0, i1])), true);
+                    if got != expected {
+                        viol(rep, case, &format!("const_cond:{cond}:{i0}:{i1}"), if expected { "selected_valid_but_circuit_rejects" } else { "selected_invalid_but_circuit_accepts" },
+                            format!("constant condition {cond}, proof0={} proof1={}: outer {}", variants[i0].0, variants[i1].0, why));
+                    }
+                }
+            }
+        }
+    }
+
     // ---- conditionally_verify_proof_or_dummy
     // `dummy_circuit` asserts that a noop-padded circuit with the same gate set reproduces the common
     // data, and the dummy key target is sized by the OUTER cap height: both are preconditions of the
@@ -231,7 +280,7 @@ fn exec_conditional(case: &Case, rep: &mut Report) {
         b.conditionally_verify_proof_or_dummy::<C>(cond, &pt, &vt, common).map_err(|e| e.to_string())?;
         let data = b.build::<C>();
         let ctx = SatCtx::new(&data);
-        Ok::<CondOuter, String>(CondOuter { data, cond, pts: vec![pt], vts: vec![vt], ctx })
+        Ok::<CondOuter, String>(CondOuter { const_cond: false, data, cond, pts: vec![pt], vts: vec![vt], ctx })
     });
     match outer {
         Ok(Ok(o)) => {
@@ -276,8 +325,14 @@ fn exec_conditional(case: &Case, rep: &mut Report) {
 }
 
 /// Common data of a circuit that can verify its own proofs (as in the library's cyclic test).
-fn common_data_for_recursion() -> CommonCircuitData<F, D> {
-    let config = CircuitConfig::standard_recursion_config();
+fn cyclic_config(cap_height: usize) -> CircuitConfig {
+    let mut config = CircuitConfig::standard_recursion_config();
+    config.fri_config.cap_height = cap_height;
+    config
+}
+
+fn common_data_for_recursion(cap_height: usize) -> CommonCircuitData<F, D> {
+    let config = cyclic_config(cap_height);
     let builder = CircuitBuilder::<F, D>::new(config.clone());
     let data = builder.build::<C>();
     let mut builder = CircuitBuilder::<F, D>::new(config.clone());
@@ -297,9 +352,12 @@ fn common_data_for_recursion() -> CommonCircuitData<F, D> {
 
 fn exec_cyclic(case: &Case, rep: &mut Report) {
     let mut r = Rng::new(case.fault_seed);
+    // Merkle cap height of the cyclic circuit: the standard 4 and its neighbours
+    let cap_height = *Rng::new(case.fault_seed ^ 0xca9).pick(&[4usize, 4, 0, 1, 2, 3, 5]);
+    rep.probe(&format!("c20.cyclic_cap_height.{cap_height}"));
     let built = guarded(|| {
         case.entropy.arm();
-        let mut builder = CircuitBuilder::<F, D>::new(CircuitConfig::standard_recursion_config());
+        let mut builder = CircuitBuilder::<F, D>::new(cyclic_config(cap_height));
         let one = builder.one();
         let initial_hash_target = builder.add_virtual_hash();
         builder.register_public_inputs(&initial_hash_target.elements);
@@ -307,7 +365,7 @@ fn exec_cyclic(case: &Case, rep: &mut Report) {
         let current_hash_out = builder.hash_n_to_hash_no_pad::<PoseidonHash>(current_hash_in.elements.to_vec());
         builder.register_public_inputs(&current_hash_out.elements);
         let counter = builder.add_virtual_public_input();
-        let mut common_data = common_data_for_recursion();
+        let mut common_data = common_data_for_recursion(cap_height);
         let vdt = builder.add_verifier_data_public_inputs();
         common_data.num_public_inputs = builder.num_public_inputs();
         let condition = builder.add_virtual_bool_target_safe();
